@@ -234,6 +234,11 @@ func (g *typesGen) newEnum(rank int, name string) tgType {
 func (g *typesGen) newAlias(rank int, name string) tgType {
 	r := g.r
 	t := tgType{pType: pType{Kind: "alias", Name: name, Pkg: tgPkgs[rank], File: "types.go", Base: rng.Pick(r, []string{"string", "int", "int64", "float64", "bool", "uint8", "string"}), Assign: r.Chance(1, 3)}, rank: rank}
+	if os.Getenv("VH_TIME_ALIAS") != "" && r.Chance(1, 4) {
+		// C08: a named type over time.Time - whatever the tool makes of it (today: it refuses the project), a document it
+		// writes must not say `type: date-time`
+		t.Base = "time.Time"
+	}
 	if r.Chance(1, 8) {
 		// alias of an alias
 		for _, e := range g.types {
